@@ -48,7 +48,7 @@ Fixpoint vbatches (nodes : list server) (values : list dyn) (b : list (server * 
   match values with
   | [] => b
   | DTuple [key; value] :: t => match routed nodes key with
-                                | Some (sv, k) => vbatches nodes t (batch_add b sv (DTuple [k; value]))
+                                | Some (sv, k) => vbatches nodes t (batch_put b sv k value)
                                 | None => vbatches nodes t b end
   | _ :: t => vbatches nodes t b
   end.
@@ -58,23 +58,55 @@ Definition items_for (nodes : list server) (sv : server) (values : list dyn) : l
                                               | Some (sv', k) => if list_eqb sv' sv then [DTuple [k; value]] else []
                                               | None => [] end
                      | _ => [] end) values.
-(* each item lands exactly in the batch of the server single-key routing assigns to its key, with the bare key *)
+(* the batch of a server is the dict built, in order, from exactly the items single-key routing assigns to it (bare keys):
+   client_batches[server][key] = value *)
+Definition put_item (d : list dyn) (kv : dyn) : list dyn := match kv with DTuple [k; v] => dict_put d k v | _ => d end.
 Theorem vbatches_partition nodes : forall values b sv,
-  blookup (vbatches nodes values b) sv = blookup b sv ++ items_for nodes sv values.
+  blookup (vbatches nodes values b) sv = fold_left put_item (items_for nodes sv values) (blookup b sv).
 Proof.
-  induction values as [|v t IH]; intros b sv; cbn [vbatches items_for flat_map]; [rewrite app_nil_r; reflexivity|].
+  induction values as [|v t IH]; intros b sv; cbn [vbatches items_for flat_map]; [reflexivity|].
   fold (items_for nodes sv t).
   destruct v as [| | | | | |l| |]; try (rewrite IH; reflexivity).
   destruct l as [|key [|value [|x l']]]; try (rewrite IH; reflexivity).
   destruct (routed nodes key) as [[sv' k]|]; [|rewrite IH; reflexivity].
-  rewrite IH, blookup_add. destruct (list_eqb sv' sv); cbn [app]; rewrite <- ?app_assoc; reflexivity.
+  rewrite IH, blookup_put. destruct (list_eqb sv' sv); cbn [app fold_left put_item]; reflexivity.
+Qed.
+(* looking a key up in such a dict (Python's key equality) *)
+Fixpoint dget (d : list dyn) (k : dyn) : option dyn :=
+  match d with
+  | DTuple [k'; v'] :: r => if dyn_eqb k' k then Some v' else dget r k
+  | _ :: r => dget r k
+  | [] => None end.
+Lemma dget_put_same d k v : dyn_eqb k k = true -> dget (dict_put d k v) k = Some v.
+Proof.
+  intros Hk. induction d as [|x r IH]; cbn [dict_put dget]; [rewrite Hk; reflexivity|].
+  destruct x as [| | | | | |l| |]; cbn [dget]; try exact IH.
+  destruct l as [|k' [|v' [|y l']]]; cbn [dget]; try exact IH.
+  destruct (dyn_eqb k' k) eqn:E; cbn [dget]; rewrite E; [reflexivity|exact IH].
+Qed.
+Lemma dget_put_some d k v k0 : dget d k0 <> None -> dget (dict_put d k v) k0 <> None.
+Proof.
+  induction d as [|x r IH]; cbn [dict_put dget]; [intros H; contradiction|].
+  destruct x as [| | | | | |l| |]; cbn [dget]; try exact IH.
+  destruct l as [|k' [|v' [|y l']]]; cbn [dget]; try exact IH.
+  destruct (dyn_eqb k' k) eqn:E; cbn [dget]; destruct (dyn_eqb k' k0); try (intros; discriminate); auto.
+Qed.
+Lemma fold_put_keeps items : forall d k0, dget d k0 <> None -> dget (fold_left put_item items d) k0 <> None.
+Proof.
+  induction items as [|it t IH]; intros d k0 H; [exact H|]. cbn [fold_left]. apply IH.
+  destruct it as [| | | | | |l| |]; cbn [put_item]; try exact H. destruct l as [|k [|v [|y l']]]; try exact H. apply dget_put_some, H.
+Qed.
+Lemma fold_put_has items k v : dyn_eqb k k = true -> In (DTuple [k; v]) items -> forall d, dget (fold_left put_item items d) k <> None.
+Proof.
+  intros Hk. induction items as [|it t IH]; intros Hin d; [destruct Hin|]. cbn [fold_left]. destruct Hin as [->|Hin]; [|apply IH, Hin].
+  apply fold_put_keeps. cbn [put_item]. rewrite (dget_put_same d k v Hk). discriminate.
 Qed.
 Lemma vbatches_nodup nodes : forall values b, NoDup (map fst b) -> NoDup (map fst (vbatches nodes values b)).
 Proof.
   induction values as [|v t IH]; intros b ND; cbn [vbatches]; [exact ND|].
   destruct v as [| | | | | |l| |]; try (apply IH, ND).
   destruct l as [|key [|value [|x l']]]; try (apply IH, ND).
-  destruct (routed nodes key) as [[sv k]|]; [apply IH, batch_servers_add, ND|apply IH, ND].
+  destruct (routed nodes key) as [[sv k]|]; [apply IH, batch_servers_put, ND|apply IH, ND].
 Qed.
 
 Definition routable (nodes : list server) (v : dyn) : Prop := match v with DTuple [key; _] => routed nodes key <> None | _ => True end.
@@ -126,13 +158,14 @@ Qed.
 (* set_many, then any single-key operation on one of its keys: the operation goes to the server whose batch carried that
    key's item, with the same bare key *)
 Theorem set_many_then_op values args m key value d2 args2 (s : hstate) sv k :
+  dyn_eqb k k = true ->
   healthy s -> Forall (routable (h_nodes s)) values -> In (DTuple [key; value]) values -> routed (h_nodes s) key = Some (sv, k) ->
   all_ok (length (vbatches (h_nodes s) values []) + 1) s ->
   exists v2 s', hbind (set_many route c values args) (fun _ => run_cmd route c m key d2 args2) s = (Ok v2, s') /\
     contacts s' = contacts s ++ map (fun b => (fst b, 1, DDict (snd b) :: args)) (vbatches (h_nodes s) values []) ++ [(sv, m, k :: args2)] /\
-    In (DTuple [k; value]) (blookup (vbatches (h_nodes s) values []) sv) /\ NoDup (map fst (vbatches (h_nodes s) values [])).
+    dget (blookup (vbatches (h_nodes s) values []) sv) k <> None /\ NoDup (map fst (vbatches (h_nodes s) values [])).
 Proof.
-  intros Hh Hv Hin Hr Hok.
+  intros Hkk Hh Hv Hin Hr Hok.
   assert (Hok1 : all_ok (length (vbatches (h_nodes s) values [])) s).
   { unfold all_ok in *. rewrite <- (firstn_firstn (h_out s) (length (vbatches (h_nodes s) values [])) (length (vbatches (h_nodes s) values []) + 1)) || idtac.
     apply Forall_forall. intros o Ho. rewrite Forall_forall in Hok. apply Hok.
@@ -143,7 +176,8 @@ Proof.
   destruct (run_cmd_contacts m key d2 args2 s1 sv k Hh1 Hr1 (all_ok_skip _ 1 s s1 Hok O1)) as (v2 & s2 & E2 & Hh2 & N2 & C2 & O2).
   exists v2, s2. unfold hbind. rewrite E1, E2. split; [reflexivity|]. split; [rewrite C2, C1, <- app_assoc; reflexivity|].
   split; [|apply vbatches_nodup; constructor].
-  rewrite vbatches_partition. cbn [blookup app]. unfold items_for. apply in_flat_map. exists (DTuple [key; value]). split; [exact Hin|].
+  rewrite vbatches_partition. apply (fold_put_has _ k value Hkk).
+  unfold items_for. apply in_flat_map. exists (DTuple [key; value]). split; [exact Hin|].
   rewrite Hr, list_eqb_refl. left. reflexivity.
 Qed.
 End C12Store.
